@@ -5,7 +5,8 @@
    Proofs/Cmp.v (C07: `==`) and the integer-only float specification of Proofs/FloatCast.v (C14). *)
 From Bnum Require Import Base Prim.
 From Bnum.Model Require Import Core Shift AddSub Bits Cast Convert FloatCast Ops NumConv.
-From Bnum.Proofs Require FloatCast Shift AddSub Cmp.
+From Bnum.Proofs Require Shift AddSub Cmp.
+From Bnum.Proofs Require Import FloatCastDeps FloatCast NumConvDeps.
 From Bnum.Proofs Require Import BitsLemmas Bits CastLemmas Cast Convert.
 Local Open Scope Z_scope.
 
@@ -450,3 +451,445 @@ Theorem AsPrimitive_bnum_ok dbg w n n' (ss dsg : bool) a :
   exists r, AsPrimitive_bnum dbg w n' ss dsg a = Ret r /\ wf w n' r /\
             uval w r = source_value ss w a mod Mod w n'.
 Proof. intros. unfold AsPrimitive_bnum. apply (cast_same_digit_ok dbg w n n'); auto. Qed.
+
+(* ================================================================== *)
+(** * 7. from_f32 / from_f64 *)
+
+(* a well-formed digit list is the encoding of its value *)
+Lemma wf_uval_enc w n r v : 0 < w -> wf w n r -> uval w r = v mod Mod w n -> r = enc w n v.
+Proof. intros Hw Hwf Hu. unfold enc. rewrite <- Hu. symmetry. apply uval_digits_of; auto. Qed.
+
+Lemma enc_small w n v : 0 <= v < Mod w n -> enc w n v = digits_of w n v.
+Proof. intros. unfold enc. rewrite Z.mod_small by lia. reflexivity. Qed.
+
+(* ---------- the float primitives of Model/NumConv.v in terms of the fields ---------- *)
+
+Lemma is_finite_spec F x : fmt_ok F -> 0 <= x < 2 ^ fbits F -> f_is_finite F x = f_finite F x.
+Proof.
+  intros Hok Hx. destruct (f_decomp F x Hok Hx) as (S & HS & Hxe & HE & Hm & Hs & Ha).
+  destruct (fmt_pows F Hok) as (HP & HQ & HQP & Hfb & HME & _ & Hinf & _).
+  unfold f_is_finite, f_abs_bits, f_finite, E_max. rewrite Ha, Hinf.
+  set (P := 2 ^ (fp F - 1)) in *. set (Q := 2 ^ ebits F) in *.
+  destruct (Z.ltb_spec (f_E F x * P + f_m F x) ((Q - 1) * P)); destruct (Z.ltb_spec (f_E F x) (Q - 1));
+    try reflexivity; nia.
+Qed.
+
+Lemma eq_zero_spec F x : fmt_ok F -> 0 <= x < 2 ^ fbits F ->
+  f_eq_zero F x = (f_E F x =? 0) && (f_m F x =? 0).
+Proof.
+  intros Hok Hx. destruct (f_decomp F x Hok Hx) as (S & HS & Hxe & HE & Hm & Hs & Ha).
+  destruct (fmt_pows F Hok) as (HP & _).
+  unfold f_eq_zero, f_abs_bits. rewrite Ha. set (P := 2 ^ (fp F - 1)) in *.
+  destruct (Z.eqb_spec (f_E F x * P + f_m F x) 0); destruct (Z.eqb_spec (f_E F x) 0);
+    destruct (Z.eqb_spec (f_m F x) 0); cbn [andb]; try reflexivity; nia.
+Qed.
+
+(* decode_f32 / decode_f64: the integer mantissa (with the implicit bit of a normal number) and
+   E - (BIAS + MANTISSA_DIGITS - 1); for E = 0 this exponent is one less than the true one *)
+Lemma decode_float_spec F x : fmt_ok F -> 0 <= x < 2 ^ fbits F ->
+  decode_float F x = (f_mant F x, f_E F x - (MAX_EXP F - 1 + fp F - 1)).
+Proof.
+  intros Hok Hx. destruct (f_decomp F x Hok Hx) as (S & HS & Hxe & HE & Hm & Hs & Ha).
+  pose proof Hok as (Hp & He & Hmx). unfold ebits in He.
+  pose proof (raw_parts_spec F x Hok Hx) as R. unfold into_raw_parts in R. cbv zeta in R.
+  injection R as _ RE Rm.
+  unfold decode_float. cbv zeta. rewrite RE, Rm. unfold f_mant. f_equal.
+  destruct (Z.eqb_spec (f_E F x) 0) as [E0 | E0]; cbn [negb]; [reflexivity|].
+  rewrite u_shl_one by lia. unfold u_or. rewrite Z.lor_comm.
+  pose proof (lor_mul_pow2_add 1 (f_m F x) (fp F - 1) ltac:(lia) Hm) as L.
+  rewrite Z.mul_1_l in L. exact L.
+Qed.
+
+(* ---------- the specification: what from_f32 / from_f64 return, on the fields of the float ---------- *)
+
+(* BUint: None for NaN and the infinities; Some 0 for +0.0 and -0.0; None for EVERY other negative float
+   (also for -1 < f < 0, whose truncation 0 would be representable: the property makes no claim there);
+   otherwise Some (trunc f) exactly when trunc f < 2^BITS *)
+Definition from_float_U_spec (F : ffmt) (M x : Z) : option Z :=
+  if negb (f_finite F x) then None
+  else if (f_E F x =? 0) && (f_m F x =? 0) then Some 0
+  else if f_sign F x then None
+  else if f_trunc F x <? M then Some (f_trunc F x) else None.
+
+(* BInt: None for NaN and the infinities; otherwise Some (f truncated toward zero) exactly when that integer is
+   in [-2^(BITS-1), 2^(BITS-1)) (so -0.0 and -1 < f < 0 give Some 0) *)
+Definition from_float_S_spec (F : ffmt) (M x : Z) : option Z :=
+  if negb (f_finite F x) then None
+  else let t := f_trunc_signed F x in
+       if (- (M / 2) <=? t) && (t <? M / 2) then Some t else None.
+
+Lemma uN_bits_bitlen pb u : uN_bits pb u = bitlen u.
+Proof. unfold uN_bits, u_leading_zeros. lia. Qed.
+
+Lemma amt_i16_ok dbg v : 0 <= v < 2 ^ 32 -> amt_to_exptype dbg AI16 v = Ret v.
+Proof.
+  intros Hv. unfold amt_to_exptype, u32_max. destruct dbg.
+  - destruct (Z.leb_spec 0 v); destruct (Z.leb_spec v (2 ^ 32 - 1)); cbn [andb]; try lia; reflexivity.
+  - rewrite Z.mod_small by lia. reflexivity.
+Qed.
+
+Lemma pow2_31_32 : 2 ^ 31 < 2 ^ 32.
+Proof. reflexivity. Qed.
+
+(* the part of buint from_float! after the three early returns *)
+Definition U_from_fN_tail (dbg : bool) (F : ffmt) (w : Z) (n : nat) (x : Z) : outcome (option (list Z)) :=
+  let '(mant, exp) := decode_float F x in
+    if exp <? 0 then
+      let mant := unwrap_or (p_checked_shr (fbits F) mant (ud 32 (- exp))) 0 in
+      if bits w n <? uN_bits (fbits F) mant then Ret None
+      else omap Some (U_from_int (fbits F) w n mant)
+    else
+      obind (exp_add dbg (uN_bits (fbits F) mant) (ud 32 exp)) (fun total =>
+      if bits w n <? total then Ret None
+      else obind (U_from_int (fbits F) w n mant) (fun c => omap Some (U_Shl_prim dbg w AI16 c exp))).
+
+Lemma U_from_fN_unfold dbg F w n x :
+  U_from_fN dbg F w n x =
+  if negb (f_is_finite F x) then Ret None
+  else if f_eq_zero F x then Ret (Some (ZERO n))
+  else if f_is_sign_negative F x then Ret None
+  else U_from_fN_tail dbg F w n x.
+Proof. reflexivity. Qed.
+
+(* a finite, non-zero, positive float *)
+Lemma U_from_fN_positive dbg F w n x :
+  fmt_ok F -> 0 < w -> 0 <= x < 2 ^ fbits F ->
+  f_finite F x = true -> f_sign F x = false ->
+  ((f_E F x =? 0) && (f_m F x =? 0)) = false ->
+  U_from_fN_tail dbg F w n x =
+  Ret (if f_trunc F x <? Mod w n then Some (enc w n (f_trunc F x)) else None).
+Proof.
+  intros Hok Hw Hx Hfin Hsign Hnz. unfold U_from_fN_tail.
+  destruct (f_decomp F x Hok Hx) as (S & HS & Hxe & HE & Hm & Hs & Ha).
+  destruct (fmt_pows F Hok) as (HP & HQ & HQP & Hfb & HME & HME2 & Hinf & H2P).
+  pose proof Hok as (Hp & He & Hmx).
+  assert (Hfbits : fbits F = fp F + ebits F) by (unfold ebits; lia).
+  assert (HMAX : MAX_EXP F <= 2 ^ 30).
+  { unfold MAX_EXP. apply pow2_le. lia. }
+  assert (HQ31 : 2 ^ ebits F <= 2 ^ 31) by (apply pow2_le; lia).
+  change (2 ^ 30) with 1073741824 in HMAX. change (2 ^ 31) with 2147483648 in HQ31.
+  unfold f_finite, E_max in Hfin. apply Z.ltb_lt in Hfin.
+  set (T := bits w n). assert (HT : 0 <= T) by (unfold T, bits; nia).
+  assert (EMod : Mod w n = 2 ^ T) by reflexivity.
+  pose proof (pow2_pos T HT) as HpT.
+  pose proof (f_trunc_nonneg F x Hok Hx) as Htr0.
+  rewrite decode_float_spec by assumption.
+  set (mant := f_mant F x). set (exp := f_E F x - (MAX_EXP F - 1 + fp F - 1)).
+  assert (Hmant_lt : 0 <= mant < 2 ^ fp F).
+  { unfold mant, f_mant. destruct (f_E F x =? 0); lia. }
+  assert (Hmb : 2 ^ fp F <= 2 ^ fbits F) by (apply pow2_le; lia).
+  assert (Hcast : forall v, 0 <= v < 2 ^ fbits F ->
+            exists r, U_from_int (fbits F) w n v = Ret r /\ wf w n r /\ uval w r = v mod Mod w n).
+  { intros v Hv. apply U_from_int_ok; [lia | lia |]. intros Hle.
+    pose proof (pow2_le (fbits F) w ltac:(lia)). lia. }
+  destruct (Z.ltb_spec exp 0) as [Hneg | Hpos].
+  - (* the value has a fractional part: shift the mantissa right *)
+    set (s := - exp). assert (Hs0 : 0 < s) by (unfold s; lia).
+    assert (Hs32 : s < 2 ^ 32) by (unfold s, exp; change (2 ^ 32) with 4294967296; lia).
+    assert (Eud : ud 32 s = s) by (unfold ud, B; apply Z.mod_small; lia). rewrite Eud.
+    assert (Eshift : unwrap_or (p_checked_shr (fbits F) mant s) 0 = mant / 2 ^ s).
+    { unfold p_checked_shr, u_shr. destruct (Z.ltb_spec s (fbits F)); cbn [unwrap_or]; [reflexivity|].
+      symmetry. apply Z.div_small. split; [lia|]. pose proof (pow2_le (fbits F) s ltac:(lia)). lia. }
+    rewrite Eshift. cbv zeta.
+    assert (Etr : mant / 2 ^ s = f_trunc F x).
+    { destruct (Z.eq_dec (f_E F x) 0) as [E0 | E0].
+      - rewrite f_trunc_subnormal by assumption. apply Z.div_small. split; [lia|].
+        unfold mant, f_mant. rewrite E0. cbn [Z.eqb]. change (0 =? 0) with true. cbv iota.
+        eapply Z.lt_le_trans; [apply Hm|]. apply pow2_le. unfold s, exp. lia.
+      - unfold f_trunc, f_exp, f_mant, EXP_BIAS. destruct (Z.eqb_spec (f_E F x) 0) as [|_]; [contradiction|].
+        replace (f_E F x - (MAX_EXP F - 1) - (fp F - 1)) with exp by (unfold exp; lia).
+        destruct (Z.leb_spec 0 exp); [lia|]. unfold mant, f_mant.
+        destruct (Z.eqb_spec (f_E F x) 0) as [|_]; [contradiction|]. reflexivity. }
+    rewrite Etr, uN_bits_bitlen.
+    rewrite Z.ltb_antisym, (bitlen_le_iff (f_trunc F x) T Htr0 HT), <- EMod.
+    destruct (Z.ltb_spec (f_trunc F x) (Mod w n)) as [Hfit | Hno]; cbn [negb]; [|reflexivity].
+    destruct (Hcast (f_trunc F x)) as (r & Hr & Hwf & Hu).
+    { split; [lia|]. rewrite <- Etr. eapply Z.le_lt_trans; [apply div_pow2_le; lia|]. lia. }
+    rewrite Hr. cbn [omap]. do 2 f_equal. apply wf_uval_enc; auto.
+  - (* an integer: shift the mantissa left; exp >= 0 forces a normal number *)
+    assert (E0 : f_E F x <> 0) by (unfold exp in Hpos; lia).
+    assert (Emant : mant = 2 ^ (fp F - 1) + f_m F x).
+    { unfold mant, f_mant. destruct (Z.eqb_spec (f_E F x) 0) as [|_]; [contradiction | reflexivity]. }
+    assert (Hmant : 2 ^ (fp F - 1) <= mant < 2 ^ fp F) by lia.
+    rewrite uN_bits_bitlen, (bitlen_unique mant (fp F)) by lia.
+    assert (Hexp32 : 0 <= exp < 2 ^ 31) by (unfold exp; change (2 ^ 31) with 2147483648; lia).
+    assert (Eud : ud 32 exp = exp).
+    { unfold ud, B. apply Z.mod_small. pose proof pow2_31_32. lia. }
+    rewrite Eud. unfold exp_add.
+    destruct (Z.ltb_spec (fp F + exp) (2 ^ 32)) as [_ | Hbad];
+      [|change (2 ^ 32) with 4294967296 in Hbad; change (2 ^ 31) with 2147483648 in Hexp32; lia].
+    cbn [obind].
+    assert (Etr : f_trunc F x = mant * 2 ^ exp).
+    { unfold f_trunc, f_exp, f_mant, EXP_BIAS. destruct (Z.eqb_spec (f_E F x) 0) as [|_]; [contradiction|].
+      replace (f_E F x - (MAX_EXP F - 1) - (fp F - 1)) with exp by (unfold exp; lia).
+      destruct (Z.leb_spec 0 exp); [|lia]. rewrite Emant. reflexivity. }
+    pose proof (pow2_pos exp ltac:(lia)) as Hpe.
+    fold T.
+    destruct (Z.ltb_spec T (fp F + exp)) as [Hbig | Hfit].
+    + (* too long *)
+      assert (Mod w n <= f_trunc F x).
+      { rewrite Etr, EMod. assert (2 ^ T <= 2 ^ (fp F - 1 + exp)) by (apply pow2_le; lia).
+        rewrite pow2_add in * by lia. nia. }
+      destruct (Z.ltb_spec (f_trunc F x) (Mod w n)); [lia | reflexivity].
+    + assert (Hlt : f_trunc F x < Mod w n).
+      { rewrite Etr, EMod. assert (2 ^ (fp F + exp) <= 2 ^ T) by (apply pow2_le; lia).
+        rewrite pow2_add in * by lia. nia. }
+      destruct (Z.ltb_spec (f_trunc F x) (Mod w n)); [|lia].
+      destruct (Hcast mant ltac:(lia)) as (c & Hc & Hwfc & Huc).
+      rewrite Hc. cbn [obind]. unfold U_Shl_prim. rewrite amt_i16_ok by (pose proof pow2_31_32; lia).
+      cbn [obind].
+      destruct (Bnum.Proofs.Shift.U_shl_ok dbg w n c exp Hw Hwfc ltac:(lia)) as (_ & Hshl & _).
+      destruct (Hshl ltac:(unfold T, bits in *; lia)) as (r & Hr & Hwfr & Hur).
+      rewrite Hr. cbn [omap]. do 2 f_equal. apply wf_uval_enc; auto.
+      rewrite Hur, Huc, Etr. pose proof (Mod_pos w n ltac:(lia)). apply Z.mul_mod_idemp_l. lia.
+Qed.
+
+(* from_float_ok, unsigned target *)
+Theorem U_from_fN_ok dbg F w n x :
+  fmt_ok F -> 0 < w -> 0 <= x < 2 ^ fbits F ->
+  U_from_fN dbg F w n x = Ret (option_map (enc w n) (from_float_U_spec F (Mod w n) x)).
+Proof.
+  intros Hok Hw Hx. rewrite U_from_fN_unfold. unfold from_float_U_spec.
+  rewrite is_finite_spec, eq_zero_spec, sign_negative_spec by assumption.
+  destruct (f_finite F x) eqn:Hfin; cbn [negb]; [|reflexivity].
+  destruct ((f_E F x =? 0) && (f_m F x =? 0)) eqn:Hz.
+  - cbn [option_map]. do 2 f_equal. unfold ZERO, enc. pose proof (Mod_pos w n ltac:(lia)).
+    rewrite Z.mod_0_l by lia. symmetry. apply digits_of_zero. lia.
+  - destruct (f_sign F x) eqn:Hs; [reflexivity|].
+    rewrite (U_from_fN_positive dbg F w n x Hok Hw Hx Hfin Hs Hz).
+    destruct (f_trunc F x <? Mod w n); reflexivity.
+Qed.
+
+(* for a float without the sign bit the unsigned specification only looks at the truncation *)
+Lemma from_float_U_spec_positive F M x : fmt_ok F -> 0 <= x < 2 ^ fbits F -> 0 < M -> f_sign F x = false ->
+  from_float_U_spec F M x =
+  if negb (f_finite F x) then None else if f_trunc F x <? M then Some (f_trunc F x) else None.
+Proof.
+  intros Hok Hx HM Hs. unfold from_float_U_spec. rewrite Hs.
+  destruct (f_finite F x); cbn [negb]; [|reflexivity].
+  destruct (Z.eqb_spec (f_E F x) 0) as [E0 | E0]; cbn [andb]; [|reflexivity].
+  rewrite f_trunc_subnormal by assumption.
+  destruct (Z.ltb_spec 0 M); [|lia]. destruct (f_m F x =? 0); reflexivity.
+Qed.
+
+Lemma I_neg_small dbg w n u : 0 < w -> (0 < n)%nat -> wf w n u -> uval w u < Mod w n / 2 ->
+  exists r, I_neg dbg w u = Ret r /\ wf w n r /\ uval w r = (- uval w u) mod Mod w n.
+Proof.
+  intros Hw Hn Hu Hlt.
+  pose proof (uval_bounds w n u ltac:(lia) Hu) as Hb.
+  pose proof (Mod_pos w n ltac:(lia)) as HM. pose proof (Mod_even w n Hw Hn) as HMe.
+  pose proof (Bnum.Proofs.AddSub.I_overflowing_neg_ok w n u Hw Hn Hu) as H1.
+  pose proof (Bnum.Proofs.AddSub.I_neg_projections w u dbg) as H2.
+  destruct (I_overflowing_neg w u) as [r f]. destruct H1 as (Rwf & Rs & Rf). destruct H2 as (_ & _ & _ & H2).
+  assert (Es : sval w u = uval w u).
+  { unfold sval, to_signed. rewrite (wf_length _ _ _ Hu). destruct (Z.ltb_spec (uval w u) (Mod w n / 2)); lia. }
+  rewrite Es in *.
+  assert (Hin : inS (Mod w n) (- uval w u) = true).
+  { unfold inS. apply andb_true_iff. split; [apply Z.leb_le | apply Z.ltb_lt]; lia. }
+  rewrite Hin in Rf. cbn [negb] in Rf. subst f.
+  rewrite wrapS_id in Rs by (auto; lia).
+  exists r. split; [exact H2|]. split; [exact Rwf|].
+  pose proof (uval_bounds w n r ltac:(lia) Rwf) as Hbr.
+  rewrite <- Rs. rewrite (sval_mod w n r Hw Rwf). symmetry. apply Z.mod_small. lia.
+Qed.
+
+(* from_float_ok, signed target *)
+Theorem I_from_fN_ok dbg F w n x :
+  fmt_ok F -> 0 < w -> (0 < n)%nat -> 0 <= x < 2 ^ fbits F ->
+  I_from_fN dbg F w n x = Ret (option_map (enc w n) (from_float_S_spec F (Mod w n) x)).
+Proof.
+  intros Hok Hw Hn Hx.
+  pose proof (Mod_pos w n ltac:(lia)) as HM. pose proof (Mod_even w n Hw Hn) as HMe.
+  assert (Hhalf : 0 < Mod w n / 2) by lia.
+  pose proof (f_trunc_nonneg F x Hok Hx) as Ht0.
+  unfold I_from_fN, from_float_S_spec, f_trunc_signed, obind_opt, from_bits.
+  rewrite sign_negative_spec by assumption.
+  destruct (f_sign F x) eqn:Hs.
+  - (* negative sign: convert the magnitude, then negate *)
+    destruct (f_neg_fields F x Hok Hx) as (Hx' & HE' & Hm' & Hs' & _). rewrite Hs in Hs'. cbn [negb] in Hs'.
+    rewrite (U_from_fN_ok dbg F w n (f_neg F x) Hok Hw Hx'). cbn [obind].
+    rewrite (from_float_U_spec_positive F (Mod w n) (f_neg F x) Hok Hx' HM Hs').
+    assert (Efin : f_finite F (f_neg F x) = f_finite F x) by (unfold f_finite; rewrite HE'; reflexivity).
+    assert (Etr : f_trunc F (f_neg F x) = f_trunc F x).
+    { unfold f_trunc, f_exp, f_mant. rewrite HE', Hm'. reflexivity. }
+    rewrite Efin, Etr. set (t := f_trunc F x) in *.
+    destruct (f_finite F x); cbn [negb]; [|reflexivity].
+    destruct (Z.ltb_spec t (Mod w n)) as [Hfit | Hno]; cbn [option_map and_then].
+    + destruct (enc_uval w n t Hw) as [Hwf Hu]. rewrite Z.mod_small in Hu by lia.
+      destruct (IMIN_spec w n Hw Hn) as [Hwfm Hum].
+      destruct (eq_digits (enc w n t) (IMIN w n)) eqn:Heq.
+      * apply (Bnum.Proofs.Cmp.eq_digits_uval w n) in Heq; auto; [|lia]. rewrite Hu, Hum in Heq.
+        destruct (Z.leb_spec (- (Mod w n / 2)) (- t)); [|lia]. destruct (Z.ltb_spec (- t) (Mod w n / 2)); [|lia].
+        cbn [andb option_map]. do 2 f_equal. apply wf_uval_enc; auto. rewrite Hum, Heq.
+        symmetry. apply mod_intro with (q := -1); lia.
+      * assert (Hne : t <> Mod w n / 2).
+        { intros E. assert (eq_digits (enc w n t) (IMIN w n) = true); [|congruence].
+          apply (Bnum.Proofs.Cmp.eq_digits_uval w n); auto; [lia|]. rewrite Hu, Hum. exact E. }
+        rewrite (is_negative_spec w n) by auto. rewrite Hu.
+        destruct (Z.leb_spec (Mod w n / 2) t) as [Hbig | Hsmall].
+        -- destruct (Z.leb_spec (- (Mod w n / 2)) (- t)); [lia|]. reflexivity.
+        -- destruct (I_neg_small dbg w n (enc w n t) Hw Hn Hwf ltac:(lia)) as (r & Hr & Hwfr & Hur).
+           rewrite Hr. cbn [omap].
+           destruct (Z.leb_spec (- (Mod w n / 2)) (- t)); [|lia]. destruct (Z.ltb_spec (- t) (Mod w n / 2)); [|lia].
+           cbn [andb option_map]. do 2 f_equal. apply wf_uval_enc; auto. rewrite Hur, Hu. reflexivity.
+    + destruct (Z.leb_spec (- (Mod w n / 2)) (- t)); [lia|]. reflexivity.
+  - (* positive sign *)
+    rewrite (U_from_fN_ok dbg F w n x Hok Hw Hx). cbn [obind].
+    rewrite (from_float_U_spec_positive F (Mod w n) x Hok Hx HM Hs).
+    set (t := f_trunc F x) in *.
+    destruct (f_finite F x); cbn [negb]; [|reflexivity].
+    destruct (Z.leb_spec (- (Mod w n / 2)) t); [|lia]. cbn [andb].
+    destruct (Z.ltb_spec t (Mod w n)) as [Hfit | Hno]; cbn [option_map and_then].
+    + destruct (enc_uval w n t Hw) as [Hwf Hu]. rewrite Z.mod_small in Hu by lia.
+      rewrite (is_negative_spec w n) by auto. rewrite Hu.
+      destruct (Z.leb_spec (Mod w n / 2) t); destruct (Z.ltb_spec t (Mod w n / 2)); try lia; reflexivity.
+    + destruct (Z.ltb_spec t (Mod w n / 2)); [lia | reflexivity].
+Qed.
+
+(* from_float_ok, both targets *)
+Definition from_float_spec (dsg : bool) (F : ffmt) (M x : Z) : option Z :=
+  if dsg then from_float_S_spec F M x else from_float_U_spec F M x.
+
+Theorem FromPrimitive_float_ok dbg F w n (dsg : bool) x :
+  fmt_ok F -> 0 < w -> (0 < n)%nat -> 0 <= x < 2 ^ fbits F ->
+  FromPrimitive_float dbg F w n dsg x = Ret (option_map (enc w n) (from_float_spec dsg F (Mod w n) x)).
+Proof.
+  intros. unfold FromPrimitive_float, from_float_spec. destruct dsg; [apply I_from_fN_ok | apply U_from_fN_ok]; auto.
+Qed.
+
+(* the specification in the words of the property *)
+Theorem from_float_spec_some (dsg : bool) F M x v : 0 < M ->
+  fmt_ok F -> 0 <= x < 2 ^ fbits F ->
+  from_float_spec dsg F M x = Some v ->
+  f_finite F x = true /\ v = f_trunc_signed F x /\
+  (if dsg then - (M / 2) <= v < M / 2 else 0 <= v < M).
+Proof.
+  intros HM Hok Hx. pose proof (f_trunc_nonneg F x Hok Hx) as Ht0.
+  unfold from_float_spec, from_float_S_spec, from_float_U_spec, f_trunc_signed. destruct dsg.
+  - destruct (f_finite F x); cbn [negb]; [|discriminate].
+    destruct (Z.leb_spec (- (M / 2)) (if f_sign F x then - f_trunc F x else f_trunc F x));
+      destruct (Z.ltb_spec (if f_sign F x then - f_trunc F x else f_trunc F x) (M / 2)); cbn [andb]; try discriminate.
+    intros E. injection E as <-. auto.
+  - destruct (f_finite F x); cbn [negb]; [|discriminate].
+    destruct (Z.eqb_spec (f_E F x) 0) as [E0 | E0]; cbn [andb].
+    + rewrite f_trunc_subnormal in * by assumption.
+      destruct (f_m F x =? 0).
+      * intros E. injection E as <-. split; [reflexivity|]. split; [destruct (f_sign F x); reflexivity | lia].
+      * destruct (f_sign F x); [discriminate|]. destruct (Z.ltb_spec 0 M); [|discriminate].
+        intros E. injection E as <-. split; [reflexivity|]. split; [reflexivity | lia].
+    + destruct (f_sign F x); [discriminate|]. destruct (Z.ltb_spec (f_trunc F x) M); [|discriminate].
+      intros E. injection E as <-. split; [reflexivity|]. split; [reflexivity | lia].
+Qed.
+
+(* Some whenever the float is finite, its truncation is in range and (unsigned target) the float is not negative:
+   +0.0 / -0.0 count as not negative *)
+Theorem from_float_spec_complete (dsg : bool) F M x : 0 < M ->
+  fmt_ok F -> 0 <= x < 2 ^ fbits F -> f_finite F x = true ->
+  (if dsg then - (M / 2) <= f_trunc_signed F x < M / 2
+   else 0 <= f_trunc_signed F x < M /\ (f_sign F x = false \/ (f_E F x = 0 /\ f_m F x = 0))) ->
+  from_float_spec dsg F M x = Some (f_trunc_signed F x).
+Proof.
+  intros HM Hok Hx Hfin Hr. pose proof (f_trunc_nonneg F x Hok Hx) as Ht0.
+  unfold from_float_spec, from_float_S_spec, from_float_U_spec, f_trunc_signed in *. rewrite Hfin. cbn [negb].
+  destruct dsg.
+  - destruct (Z.leb_spec (- (M / 2)) (if f_sign F x then - f_trunc F x else f_trunc F x)); [|lia].
+    destruct (Z.ltb_spec (if f_sign F x then - f_trunc F x else f_trunc F x) (M / 2)); [|lia]. reflexivity.
+  - destruct Hr as [Hr [Hpos | [E0 Em0]]].
+    + rewrite Hpos in *.
+      destruct (Z.eqb_spec (f_E F x) 0) as [E0 | E0]; cbn [andb].
+      * rewrite f_trunc_subnormal in * by assumption. destruct (f_m F x =? 0); [reflexivity|].
+        destruct (Z.ltb_spec 0 M); [reflexivity | lia].
+      * destruct (Z.ltb_spec (f_trunc F x) M); [reflexivity | lia].
+    + rewrite E0, Em0. cbn [Z.eqb andb]. change (0 =? 0) with true. cbn [andb].
+      rewrite f_trunc_subnormal by assumption. destruct (f_sign F x); reflexivity.
+Qed.
+
+(* None for NaN and the infinities, for both targets *)
+Theorem from_float_spec_not_finite (dsg : bool) F M x : f_finite F x = false -> from_float_spec dsg F M x = None.
+Proof.
+  intros H. unfold from_float_spec, from_float_S_spec, from_float_U_spec. rewrite H. destruct dsg; reflexivity.
+Qed.
+
+(* what the code does for negative floats into an unsigned target: None unless the float is -0.0
+   (in particular None for -1 < f < 0, although the truncation 0 is representable) *)
+Theorem from_float_U_negative F M x : f_finite F x = true -> f_sign F x = true ->
+  from_float_spec false F M x = if (f_E F x =? 0) && (f_m F x =? 0) then Some 0 else None.
+Proof.
+  intros Hfin Hs. unfold from_float_spec, from_float_U_spec. rewrite Hfin, Hs. cbn [negb].
+  destruct ((f_E F x =? 0) && (f_m F x =? 0)); reflexivity.
+Qed.
+
+Theorem FromPrimitive_float_total dbg F w n (dsg : bool) x :
+  fmt_ok F -> 0 < w -> (0 < n)%nat -> 0 <= x < 2 ^ fbits F ->
+  FromPrimitive_float dbg F w n dsg x <> Panic.
+Proof. intros. rewrite FromPrimitive_float_ok by auto. discriminate. Qed.
+
+(* ================================================================== *)
+(** * 8. Float results: to_f32 / to_f64 / as_ f32 / f64 (premise: C14's integer -> float cast returns a float),
+        as_ from f32 / f64 (no premise: C14's float -> integer theorems with their premises discharged) *)
+
+Lemma fmt_ok_of F : F = F32 \/ F = F64 -> fmt_ok F.
+Proof. intros [-> | ->]; [apply fmt_ok_F32 | apply fmt_ok_F64]. Qed.
+
+Theorem AsPrimitive_to_float_total dbg F w n (ss : bool) a :
+  cast_float_from_uint_total_spec ->
+  F = F32 \/ F = F64 -> 0 < w -> (0 < n)%nat -> wf w n a ->
+  exists r, AsPrimitive_to_float dbg F w ss a = Ret r /\ 0 <= r < 2 ^ fbits F.
+Proof.
+  intros Hspec HF Hw Hn Hwf. unfold AsPrimitive_to_float, I_to_float, U_to_float. destruct ss.
+  - destruct (Bnum.Proofs.AddSub.I_unsigned_abs_ok w n a Hw Hn Hwf) as [Hwfa _].
+    destruct (Hspec dbg F w n (I_unsigned_abs w a) HF Hw Hwfa) as (r & Hr & Hrange).
+    rewrite Hr. cbn [obind]. destruct (is_negative w a).
+    + exists (f_neg F r). split; [reflexivity|]. apply (f_neg_fields F r (fmt_ok_of F HF) Hrange).
+    + exists r. auto.
+  - exact (Hspec dbg F w n a HF Hw Hwf).
+Qed.
+
+(* to_float: to_f32 / to_f64 are always Some, of the C14 cast; no panic *)
+Theorem ToPrimitive_float_total dbg F w n (ss : bool) a :
+  cast_float_from_uint_total_spec ->
+  F = F32 \/ F = F64 -> 0 < w -> (0 < n)%nat -> wf w n a ->
+  exists r, ToPrimitive_float dbg F w ss a = Ret (Some r) /\ AsPrimitive_to_float dbg F w ss a = Ret r /\
+            0 <= r < 2 ^ fbits F.
+Proof.
+  intros Hspec HF Hw Hn Hwf.
+  destruct (AsPrimitive_to_float_total dbg F w n ss a Hspec HF Hw Hn Hwf) as (r & Hr & Hrange).
+  exists r. split; [|auto]. destruct (ToPrimitive_float_is_cast dbg F w ss a) as [_ E]. rewrite E, Hr. reflexivity.
+Qed.
+
+(* as_ from a float is the saturating, truncating C14 cast; no panic *)
+Theorem AsPrimitive_from_float_ok dbg F w n (dsg : bool) x :
+  fmt_ok F -> 0 < w -> (0 < n)%nat -> 0 <= x < 2 ^ fbits F ->
+  exists r, AsPrimitive_from_float dbg F w n dsg x = Ret r /\ wf w n r /\
+            source_value dsg w r = if dsg then float_to_S_spec F (Mod w n) x else float_to_U_spec F (Mod w n) x.
+Proof.
+  intros Hok Hw Hn Hx. unfold AsPrimitive_from_float, source_value. destruct dsg.
+  - apply I_from_float_ok'; auto.
+  - apply U_from_float_ok; auto.
+Qed.
+
+Theorem AsPrimitive_from_char_ok w n (dsg : bool) c : 0 < w -> 0 <= c < 1114112 ->
+  exists r, AsPrimitive_from_char w n dsg c = Ret r /\ wf w n r /\ uval w r = c mod Mod w n.
+Proof. intros. unfold AsPrimitive_from_char. apply from_char_ok; auto. Qed.
+
+Theorem AsPrimitive_from_bool_ok w n (dsg b : bool) : 0 < w ->
+  wf w n (AsPrimitive_from_bool n dsg b) /\ uval w (AsPrimitive_from_bool n dsg b) = (if b then 1 else 0) mod Mod w n.
+Proof. intros Hw. unfold AsPrimitive_from_bool. exact (from_bool_ok w n dsg b Hw). Qed.
+
+(* NumCast::from panics unconditionally (the trait is declared unsupported); the property makes no claim about it *)
+Lemma NumCast_panics {A} (x : A) : NumCast_from x = Panic.
+Proof. reflexivity. Qed.
+
+(* the two conditional theorems with the premise in front (the form Properties/C19.v states) *)
+Theorem ToPrimitive_float_total_cond :
+  cast_float_from_uint_total_spec -> forall dbg F w n (ss : bool) a,
+  F = F32 \/ F = F64 -> 0 < w -> (0 < n)%nat -> wf w n a ->
+  exists r, ToPrimitive_float dbg F w ss a = Ret (Some r) /\ AsPrimitive_to_float dbg F w ss a = Ret r /\
+            0 <= r < 2 ^ fbits F.
+Proof. intros H dbg F w n ss a. exact (ToPrimitive_float_total dbg F w n ss a H). Qed.
+
+Theorem AsPrimitive_to_float_total_cond :
+  cast_float_from_uint_total_spec -> forall dbg F w n (ss : bool) a,
+  F = F32 \/ F = F64 -> 0 < w -> (0 < n)%nat -> wf w n a ->
+  exists r, AsPrimitive_to_float dbg F w ss a = Ret r /\ 0 <= r < 2 ^ fbits F.
+Proof. intros H dbg F w n ss a. exact (AsPrimitive_to_float_total dbg F w n ss a H). Qed.
